@@ -191,7 +191,25 @@ fn access(entry: &str, data: &[u8], re: bool) -> bool {
 pub const ENTRIES: &[&str] = &["cert", "crl", "mft", "mftr", "roa", "roar", "aspa", "aspar", "rta", "rtar", "tal",
     "key", "csr", "bcsr", "idcert", "sigmsg", "sigmsgr", "so", "sor"];
 
+static HANGS: AtomicUsize = AtomicUsize::new(0);
+
+/// Runs the case on its own thread; a case that does not finish within five seconds is a hang.
 pub fn exec(toks: &[&str]) -> String {
+    if HANGS.load(Ordering::SeqCst) >= 3 { return "skipped-after-hangs".into() }
+    let owned: Vec<String> = toks.iter().map(|s| s.to_string()).collect();
+    let (tx, rx) = std::sync::mpsc::channel();
+    std::thread::spawn(move || {
+        let v: Vec<&str> = owned.iter().map(|s| s.as_str()).collect();
+        let r = catch_unwind(AssertUnwindSafe(|| exec_inner(&v))).unwrap_or_else(|_| "panic".into());
+        let _ = tx.send(r);
+    });
+    match rx.recv_timeout(std::time::Duration::from_secs(5)) {
+        Ok(r) => r,
+        Err(_) => { HANGS.fetch_add(1, Ordering::SeqCst); "hang".into() }
+    }
+}
+
+fn exec_inner(toks: &[&str]) -> String {
     match toks {
         ["dec", entry, h] => {
             if !ENTRIES.contains(entry) { return "bad-op".into() }
@@ -288,6 +306,91 @@ fn mutate(rng: &mut Rng, orig: &[u8], others: &[Vec<u8>]) -> Vec<u8> {
     d
 }
 
+/// A mutation that keeps every enclosing length consistent: the object is parsed into a tree, one node
+/// is changed, and the whole is encoded again.
+fn mutate_tree(rng: &mut Rng, orig: &[u8]) -> Option<Vec<u8>> {
+    let mut nodes = der::parse_nodes(orig)?;
+    let total = der::count_nodes(&nodes);
+    if total == 0 { return None }
+    let mut idx = rng.below(total as u64) as usize;
+    let choice = rng.below(14);
+    let r1 = rng.next();
+    let r2 = rng.next();
+    let mut f = Some(move |sibs: &mut Vec<der::Node>, i: usize| {
+        let tag = sibs[i].tag;
+        match choice {
+            0 => { sibs[i].kids = None; sibs[i].content = vec![]; }                              // empty value
+            1 => { sibs.remove(i); }                                                             // drop the value
+            2 => { let n = sibs[i].clone(); sibs.insert(i, n); }                                 // duplicate
+            3 => { if i + 1 < sibs.len() { sibs.swap(i, i + 1); } }                              // swap with the next sibling
+            4 => { if let Some(k) = sibs[i].kids.as_mut() { if !k.is_empty() { let j = (r1 % k.len() as u64) as usize; k.truncate(j); } } }
+            5 => { sibs[i].kids = None; let l = sibs[i].content.len(); sibs[i].content.truncate((r1 % (l as u64 + 1)) as usize); }
+            6 => {                                                                               // boundary contents by type
+                sibs[i].kids = None;
+                sibs[i].content = match tag {
+                    0x03 => [vec![], vec![0], vec![8], vec![7, 0xff], vec![0xff, 0], vec![3, 0x07], vec![1]][(r1 % 7) as usize].clone(),
+                    0x02 => [vec![], vec![0x80], vec![0, 0], vec![0xff, 0xff], vec![0x7f; 21], vec![0, 0x80], vec![0xff; 5]][(r1 % 7) as usize].clone(),
+                    0x01 => [vec![], vec![1], vec![0, 0]][(r1 % 3) as usize].clone(),
+                    0x06 => [vec![], vec![0x80], vec![0x2a, 0x86], vec![0xff; 40]][(r1 % 4) as usize].clone(),
+                    0x17 | 0x18 => { let mut c = sibs[i].content.clone(); if !c.is_empty() { let p = (r1 % c.len() as u64) as usize; c[p] = b" /-+.:A\0Zz9"[(r2 % 11) as usize]; } c }
+                    _ => vec![(r1 & 0xff) as u8; (r2 % 4) as usize],
+                };
+            }
+            7 => { if tag == 0x03 && sibs[i].kids.is_none() && !sibs[i].content.is_empty() {       // unused-bits octet
+                       sibs[i].content[0] = [1u8, 3, 7, 8, 9, 0x7f, 0xff][(r1 % 7) as usize];
+                       if r2 % 2 == 0 { if let Some(l) = sibs[i].content.last_mut() { *l |= 0x07; } } } }
+            8 => { sibs[i].tag ^= 0x20; }
+            9 => { sibs[i].tag = [0x30u8, 0x31, 0x02, 0x03, 0x04, 0x05, 0x06, 0x0c, 0x13, 0x16, 0x17, 0x18, 0xa0, 0xa1, 0xa3, 0x80][(r1 % 16) as usize]; }
+            10 => { if sibs[i].kids.is_none() && !sibs[i].content.is_empty() { let p = (r1 % sibs[i].content.len() as u64) as usize; sibs[i].content[p] ^= 1 << (r2 % 8); } }
+            11 => { if sibs[i].kids.is_none() { sibs[i].content.push((r1 & 0xff) as u8); } }
+            12 => { if sibs[i].kids.is_none() && !sibs[i].content.is_empty() { sibs[i].content.remove(0); } }
+            _ => { if let Some(k) = sibs[i].kids.as_mut() { k.push(der::Node { tag: 0x05, kids: None, lead: vec![], content: vec![] }); } }
+        }
+    });
+    der::with_node(&mut nodes, &mut idx, &mut f);
+    Some(der::encode_nodes(&nodes))
+}
+
+/// Every boundary content for every small primitive (BIT STRING, INTEGER, BOOLEAN, times) of the object,
+/// one at a time, with all enclosing lengths re-encoded.
+fn systematic(orig: &[u8]) -> Vec<Vec<u8>> {
+    let mut out = Vec::new();
+    let Some(nodes) = der::parse_nodes(orig) else { return out };
+    let total = der::count_nodes(&nodes);
+    for target in 0..total {
+        for opt in 0..8usize {
+            let mut n2 = nodes.clone();
+            let mut idx = target;
+            let mut changed = false;
+            {
+                let ch = &mut changed;
+                let mut f = Some(|sibs: &mut Vec<der::Node>, i: usize| {
+                    if sibs[i].kids.is_some() { return }
+                    let c = &sibs[i].content;
+                    let new: Option<Vec<u8>> = match (sibs[i].tag, opt) {
+                        (0x03, 0) => Some(vec![]), (0x03, 1) => Some(vec![0]), (0x03, 2) => Some(vec![8]),
+                        (0x03, 3) => Some(vec![7, 0xff]), (0x03, 4) if !c.is_empty() => { let mut v = c.clone(); v[0] = 8; Some(v) }
+                        (0x03, 5) if !c.is_empty() => { let mut v = c.clone(); v[0] = 0xff; Some(v) }
+                        (0x03, 6) if c.len() > 1 => { let mut v = c.clone(); v[0] = 3; let l = v.len() - 1; v[l] |= 7; Some(v) }
+                        (0x03, 7) if !c.is_empty() => Some(vec![c[0]]),
+                        (0x02, 0) => Some(vec![]), (0x02, 1) => Some(vec![0x80]), (0x02, 2) => Some(vec![0, 0]),
+                        (0x02, 3) => Some(vec![0x7f; 21]), (0x02, 4) => Some(vec![0xff; 2]), (0x02, 5) => Some(vec![0, 0x80]),
+                        (0x01, 0) => Some(vec![]), (0x01, 1) => Some(vec![1]), (0x01, 2) => Some(vec![0, 0]),
+                        (0x17 | 0x18, k) if !c.is_empty() && k < 6 => { let mut v = c.clone(); let p = (k * 5) % v.len(); v[p] = b" /+-.:"[k]; Some(v) }
+                        (0x17 | 0x18, 6) => Some(vec![]),
+                        (0x17 | 0x18, 7) if !c.is_empty() => { let mut v = c.clone(); v.pop(); Some(v) }
+                        _ => None,
+                    };
+                    if let Some(v) = new { sibs[i].content = v; *ch = true; }
+                });
+                der::with_node(&mut n2, &mut idx, &mut f);
+            }
+            if changed { out.push(der::encode_nodes(&n2)); }
+        }
+    }
+    out
+}
+
 /// Valid objects of every type: (entry, der)
 pub fn seeds(pool: &Pool) -> Vec<(&'static str, Vec<u8>)> {
     let mut v: Vec<(&'static str, Vec<u8>)> = Vec::new();
@@ -380,9 +483,16 @@ pub fn generate(ctx: &mut Ctx) {
         ctx.case(&format!("dec {} {}", entry, hex(data)));
         if !relaxed(entry).is_empty() { ctx.case(&format!("dec {} {}", relaxed(entry), hex(data))); }
         for other in ENTRIES { if other != entry && rng.chance(1, 3) { ctx.case(&format!("dec {} {}", other, hex(data))); } }
+        if *entry != "tal" && data.len() < 4000 {
+            for d in systematic(data) {
+                let e = if !relaxed(entry).is_empty() && rng.chance(1, 4) { relaxed(entry) } else { entry };
+                ctx.case(&format!("dec {} {}", e, hex(&d)));
+            }
+        }
         for _ in 0..per {
-            let mut d = mutate(&mut rng, data, &all);
-            if rng.chance(1, 5) { d = mutate(&mut rng, &d, &all); }
+            let mut d = if rng.bool() { mutate_tree(&mut rng, data).unwrap_or_else(|| mutate(&mut rng, data, &all)) }
+                        else { mutate(&mut rng, data, &all) };
+            if rng.chance(1, 5) { d = if rng.bool() { mutate_tree(&mut rng, &d).unwrap_or(d) } else { mutate(&mut rng, &d, &all) }; }
             if d.len() > 120_000 { d.truncate(120_000); }
             let e = if !relaxed(entry).is_empty() && rng.bool() { relaxed(entry) } else { entry };
             ctx.case(&format!("dec {} {}", e, hex(&d)));
@@ -410,6 +520,14 @@ pub fn generate(ctx: &mut Ctx) {
     }
     // TAL text
     let tal = std::fs::read("/repo/test-data/repository/ripe.tal").unwrap_or_default();
+    for t in [&b"#"[..], b"# comment without line feed", b"# first\n# second without LF", b"#\n", b"# a\n\n", b"\n", b"#\r", b"# x\r\n#"] {
+        ctx.case(&format!("dec tal {}", hex(t)));
+        let mut d = t.to_vec(); d.extend_from_slice(&tal);
+        ctx.case(&format!("dec tal {}", hex(&d)));
+        let mut e = b"# leading comment\n".to_vec(); e.extend_from_slice(&tal); e.extend_from_slice(t);
+        ctx.case(&format!("dec tal {}", hex(&e)));
+        for cut in [1usize, 5, 17] { if e.len() > cut { ctx.case(&format!("dec tal {}", hex(&e[..cut]))); } }
+    }
     for _ in 0..per {
         let mut d = tal.clone();
         if d.is_empty() { break }
